@@ -15,7 +15,9 @@ var docKeys = []string{`"a"`, `"é \""`}
 
 // strings that trip text-level post-processing: a backslash followed by u003c, HTML-sensitive characters, a percent sign
 // (print must not treat output as a format), line separators, DEL and a lone surrogate escape
-var docScalarsExtra = []string{`"\\u003cb\\u003e"`, `"<&>"`, `"50% off %s %d %"`, `"\u2028\u2029"`, `"\u007f"`, `"\ud800"`, `"\\"`, `"\\n"`, `9223372036854775807`, `-9223372036854775808`, `1e400`[0:0] + `123456789012345678901234567890`, `0.1`, `"%v"`}
+var docScalarsExtra = []string{`"\\u003cb\\u003e"`, `"<&>"`, `"50% off %s %d %"`, `"\u2028\u2029"`, `"\u007f"`, `"\ud800"`, `"\\"`, `"\\n"`, `9223372036854775807`, `-9223372036854775808`, `1e400`[0:0] + `123456789012345678901234567890`, `0.1`, `"%v"`,
+	// text that ends in, or consists of, line ends and blanks: print adds exactly one newline of its own
+	`"line\n"`, `"\n"`, `"x\r\n"`, `"\n\n"`, `" "`, `"a\nb\n "`}
 
 // docGen enumerates JSON texts of all trees of depth <= depth whose containers
 // have at most width children. Index-addressable: Count() and At(i).
